@@ -502,6 +502,9 @@ def step (st : St) (line : String) : St × Verdict :=
   | "zbomb" :: typ :: kind :: rest => (st, doZbomb typ kind rest)
   | "zcap" :: typ :: rest => (st, doZcap typ rest)
   | "zdec" :: typ :: kind :: hex :: rest => (st, doZdec typ kind hex rest)
+  | ["zconc", w, it, "=>", verdict] =>
+    (st, if verdict == "ok" then .ok "zconc"
+         else .oracle s!"ZSTD-ROUNDTRIP concurrent Decode through one codec ({w} {it}) did not return the encoded values: {verdict}")
   | _ => (st, .bad "unknown op")
 
 end Driver.Codec
